@@ -1,4 +1,4 @@
-(* GENERATED from /repo/Python/dawgie/db/basis.py -- do not edit *)
+(* GENERATED from /tmp/mut_C17/Python/dawgie/db/basis.py -- do not edit *)
 From Coq Require Import ZArith Bool.
 Open Scope Z_scope.
 Open Scope bool_scope.
